@@ -32,7 +32,7 @@ def main():
     if st.stdout.strip():
         print("refusing: /repo has uncommitted changes"); sys.exit(2)
     if demo.exists():
-        r = sh(f"cd {REPO} && PYTHONPATH={REPO} /venv/bin/python {demo}", timeout=600)
+        r = sh(f"cd {REPO} && SMPL_REPO={REPO} PYTHONPATH={REPO} /venv/bin/python {demo}", timeout=900)
         res["demo_without"] = r.returncode
     ap = sh(f"git -C {REPO} apply {patch}")
     if ap.returncode != 0:
@@ -41,7 +41,7 @@ def main():
         t = sh(f"cd {REPO} && /venv/bin/python -m pytest -q -p no:cacheprovider 2>&1 | tail -1", timeout=900)
         res["tests_with"] = t.stdout.strip()
         if demo.exists():
-            r = sh(f"cd {REPO} && PYTHONPATH={REPO} /venv/bin/python {demo}", timeout=600)
+            r = sh(f"cd {REPO} && SMPL_REPO={REPO} PYTHONPATH={REPO} /venv/bin/python {demo}", timeout=900)
             res["demo_with"] = r.returncode
         for p in props:
             r = sh(f"cd {VERIF} && /venv/bin/python harness/check.py --property {p} --tier {tier}", timeout=3600)
